@@ -364,6 +364,16 @@ def run(repo, res, tier):
     arms_builtin(repo, res)
     common.run_traversals(repo, res, only={"check::specialize_nonterminals", "check::resolve_nonterminals"})
     RPL.from_grammar_order(repo, res)
+    # the chosen definition is what runs only if it is reached at all (definitions expanded in dependency order, TOPO, shared with C02)
+    # and if the id under which its function is defined is the id the tables call (base-dimension typing of command-id holes, DIM, shared with C04)
+    from . import c02
+    c02.postorder(repo, res)
+    from vlib import rules_emit as RE, types as TY
+    ty = TY.Typer(repo, RE.ROARING_DIMS)
+    for mod in RE.EMITTERS:
+        base = RE.module_base(repo, mod)
+        if base is not None:
+            RE.dim_rule(repo, res, mod, ty, base)
     res.floor("LOOKUP", res.count("LOOKUP"), 2)
     res.floor("DOM", res.count("DOM"), 3)  # one site per shell arm today (4 x 3); a shared constructor gives 3-4
     res.floor("FF", res.count("FF"), 18)
